@@ -234,7 +234,20 @@ def expected_fingerprint(spec, with_defaults=True) -> dict:
             t2.units[rd["name"]] = dict(t.units[rd["name"]], factor=rd["factor"], ref=rd["ref"])
             f, d = t2.root_of_unit(rd["name"])
             fp["redef"][f"{c['name']}|{rd['name']}"] = norm_num(f)
+    later = _later_alias(spec)
+    if later:
+        fp["later"] = {"alias_of_prefixed_unit": later[0]}
     return fp
+
+
+def _later_alias(spec):
+    """(prefix name + unit name, new alias): an alias given, after loading, to a prefixed unit that nothing has used
+    yet - whether such a unit is already in the unit table depends on the loading path (a registry read from the disk
+    cache has not walked the definitions), what the alias denotes must not."""
+    names = [u["name"] for u in spec["units"] if u.get("offset") is None]
+    if len(names) < 2 or not spec.get("prefixes"):
+        return None
+    return spec["prefixes"][0]["name"] + names[1], "zzlateralias"
 
 
 def take_fingerprint(ureg, spec, num, full=True) -> dict:
@@ -305,6 +318,12 @@ def take_fingerprint(ureg, spec, num, full=True) -> dict:
                 with ureg.context(c["name"]):
                     return norm_num(ureg.get_root_units(rd["name"])[0])
             fp["redef"][f"{c['name']}|{rd['name']}"] = guard(rdf)
+    later = _later_alias(spec)
+    if later:
+        def la():
+            ureg.define(f"@alias {later[0]} = {later[1]}")
+            return ureg.get_name(later[1])
+        fp["later"] = {"alias_of_prefixed_unit": guard(la)}
     return fp
 
 
